@@ -915,8 +915,27 @@ def get_code(node: ast.AST | Range, source: str) -> str:
     return source[start_charno:end_charno]
 
 
+# Builtins that are side effect free, but whose result is still not a compile-time constant: it
+# depends on the calling frame, on the process (hash randomization, object identity), or it
+# consumes its argument.
+_NON_CONSTANT_BUILTINS = frozenset({"__build_class__", "dir", "hash", "id", "next", "super", "vars"})
+_LITERAL_VALUE_CALLABLES = constants.SAFE_CALLABLES - _NON_CONSTANT_BUILTINS
+
+
 def literal_value(node: ast.AST) -> bool:
-    if has_side_effect(node, safe_callable_whitelist=constants.BUILTIN_FUNCTIONS):
+    """Find the value of a constant expression, or raise ValueError if it has no known value."""
+    try:
+        return _literal_value(node)
+    except ValueError:
+        raise
+    except Exception as error:
+        # If evaluating the expression raises (ZeroDivisionError, TypeError, ...), the expression
+        # does not have a value, and callers expect a ValueError in that case.
+        raise ValueError(f"Cannot find a deterministic value, evaluation raised {error!r}") from error
+
+
+def _literal_value(node: ast.AST) -> bool:
+    if has_side_effect(node, safe_callable_whitelist=_LITERAL_VALUE_CALLABLES):
         raise ValueError("Cannot find a deterministic value for a node with a side effect")
 
     if match_template(
@@ -966,9 +985,10 @@ def literal_value(node: ast.AST) -> bool:
         return getattr(node_value, node.func.attr)(*args)
 
     if isinstance(node, ast.Call):
-        if isinstance(node.func, ast.Name) and node.func.id in constants.BUILTIN_FUNCTIONS:
+        if isinstance(node.func, ast.Name) and node.func.id in _LITERAL_VALUE_CALLABLES:
             args = [literal_value(arg) for arg in node.args]
-            return getattr(builtins, node.func.id)(*args)
+            kwargs = {keyword.arg: literal_value(keyword.value) for keyword in node.keywords}
+            return getattr(builtins, node.func.id)(*args, **kwargs)
 
     return ast.literal_eval(node)
 
